@@ -55,9 +55,12 @@ def run(ck):
             ck.violation("1", "T1-no-guard-across-user-code", s.body, descr, "user code (%s) can run while a RefCell guard of loop state is live: %s — any re-entrant handle operation borrowing that cell from the callback panics (or, for a shared guard, a mutable re-borrow does)" % (s.cls, "; ".join(bad)), site=s.body.where(s.bb), path=s.via)
         else:
             ck.ok("1", "T1-no-guard-across-user-code", s.body, descr, "live guards at this user-code site: %s" % (held or "none"), site=s.body.where(s.bb))
-    # floors counted on the reference tree: full 49, book (executor, futures-io) 39, default 35
-    fl = 35 + (4 if ck.has("executor") else 0) + (4 if ck.has("stream") else 0) + (2 if ck.has("signals") else 0) + (4 if ck.has("block_on") else 0)
-    ck.floor("1", "user-code sites (CB/FUT, direct and through local callees)", n, fl)
+    # floor: the number of *functions* (closures counted with their parent) in which user code is reached, counted
+    # on the reference tree: full 26, book (executor, futures-io) 23, default 21. (The number of sites inside one
+    # function is not a floor: merging three replace_state calls into one is a legitimate refactoring.)
+    fns = {s.body.qual.split("::{closure")[0] for s in sites if s.cls in ("CB", "FUT")}
+    fl = 21 + (2 if ck.has("executor") else 0) + (1 if ck.has("stream") else 0) + (1 if ck.has("signals") else 0) + (1 if ck.has("block_on") else 0)
+    ck.floor("1", "functions reaching user code (CB/FUT sites, direct and through local callees)", len(fns), fl)
     for s in sites:
         if s.cls in ("SRC", "WAKE") and s.payloads():
             ck.info("1", "T1-enumerated", s.body, "%s:%s" % (s.cls, s.descr), "source-implementation code / waker runs under %s (by contract; not covered by the statement)" % [p[1] for p in s.payloads()], site=s.body.where(s.bb))
@@ -76,7 +79,7 @@ def run(ck):
             ok_e, err_e, _ = T.result_split(b, t.bb)
             ok = False
             for i, j, st in b.statements():
-                if st["s"] == "assign" and st["pl"]["l"] == 0 and st["rv"]["r"] == "agg" and st["rv"].get("variant") == "Ok" and not b.is_cleanup(i):
+                if st["s"] == "assign" and st["pl"]["l"] in T.ret_locals(b) and st["rv"]["r"] == "agg" and st["rv"].get("variant") == "Ok" and not b.is_cleanup(i):
                     v = st["rv"]["fields"][0]
                     if v.get("k", {}).get("v") == 0 and err_e and T.reachable_only_via(b, i, err_e):
                         ok = True
